@@ -28,6 +28,8 @@ UNIVERSES = {
            'subst': {'NT = 4': 'NT = 3', 'Ins <- Ins4': 'Ins <- Ins3', 'Rel <- Rel4': 'Rel <- Rel3', 'Blk <- Blk4': 'Blk <- BlkR', 'MaxReorg = 0': 'MaxReorg = 1'}},
     'R3b': {'nt': 3, 'ins': [[1], [1], [2]], 'rel': [True, True, False], 'blk': [[1, 3], [2]],
             'subst': {'NT = 4': 'NT = 3', 'Ins <- Ins4': 'Ins <- Ins3', 'Rel <- Rel4': 'Rel <- Rel3', 'Blk <- Blk4': 'Blk <- BlkR2', 'MaxReorg = 0': 'MaxReorg = 1'}},
+    'U5': {'nt': 5, 'ins': [[1], [2], [2, 3], [3], [1, 2]], 'rel': [True] * 5, 'blk': [[4]],
+           'subst': {'NT = 4': 'NT = 5', 'Ins <- Ins4': 'Ins <- Ins5', 'Rel <- Rel4': 'Rel <- Rel5', 'Blk <- Blk4': 'Blk <- Blk5'}},
     'U3b': {'nt': 3, 'ins': [[1], [1], [2]], 'rel': [True, False, False], 'blk': [[2, 3]],
             'subst': {'NT = 4': 'NT = 3', 'Ins <- Ins4': 'Ins <- Ins3', 'Rel <- Rel4': 'Rel <- Rel3b', 'Blk <- Blk4': 'Blk <- Blk3'}},
     'U3': {'nt': 3, 'ins': [[1], [1], [2]], 'rel': [True, True, False], 'blk': [[2, 3]],
@@ -51,8 +53,9 @@ def model(chk, name, subst, workers=14, timeout=1500, heap='24g'):
     return r
 
 
-def gen(chk, uni, num, depth, seed, race=False):
+def gen(chk, uni, num, depth, seed, race=False, extra=None):
     sub = dict(UNIVERSES[uni]['subst'])
+    sub.update(extra or {})
     if race:
         sub['Race = FALSE'] = 'Race = TRUE'
     ss = pipeline.sim_scripts(chk, 'TxPipeline', 'Sim_TxPipeline.cfg', num=num, depth=depth, seed=seed,
